@@ -140,10 +140,10 @@ async fn read_phases(proxies: &BTreeMap<u64, Handler>) -> Phases {
 }
 
 // waits (load-independent: up to stuck_limit()) until every task reports the expected pair of states
-async fn wait_states(proxies: &BTreeMap<u64, Handler>, want: (&str, &str)) -> Phases {
+async fn wait_states(proxies: &BTreeMap<u64, Handler>, want: (&str, &str), cap: Duration) -> Phases {
     let t = std::time::Instant::now();
     let mut ph = read_phases(proxies).await;
-    while !ph.values().all(|(a, b)| a == want.0 && b == want.1) && t.elapsed() < stuck_limit() {
+    while !ph.values().all(|(a, b)| a == want.0 && b == want.1) && t.elapsed() < cap {
         tokio::time::sleep(Duration::from_millis(4)).await;
         ph = read_phases(proxies).await;
     }
@@ -513,6 +513,72 @@ fn monitor(truth: &Truth, ph: &Phases, obs: &BTreeMap<u64, Vec<Obs>>) -> String 
     )
 }
 
+// The barrier flag is not part of the task state: PRE_BLOCKING is set just before start_blocking, SCANNING just before the
+// BlockingHandle is dropped (PRE_SWITCH implies a raised barrier, FINAL_SWITCH and later a dropped handle).  For the source node of
+// every PRE_BLOCKING task wait until a sentinel command is counted INTO its blocking queue, for the source node of SCANNING tasks
+// (that is not also the source of an earlier-phase task) until a sentinel for one of its stable slots is handed to the node.
+async fn establish_barriers(proxies: &BTreeMap<u64, Handler>, ph: &Phases, truth: &Truth, note: &mut String) {
+    let blocked_nodes: Vec<u64> = ph.iter().filter(|(_, (a, _))| a == "PRE_BLOCKING" || a == "PRE_SWITCH").map(|((_, s, _), _)| *s).collect();
+    let mut done: Vec<u64> = vec![];
+    for ((ranges, src, _), (state, _)) in ph.iter() {
+        let want_blocked = match state.as_str() {
+            "PRE_BLOCKING" => true,
+            "SCANNING" if !blocked_nodes.contains(src) => false,
+            _ => continue,
+        };
+        if done.contains(src) {
+            continue;
+        }
+        done.push(*src);
+        let slot: Option<usize> = if want_blocked {
+            ranges.split(|c| c == '-' || c == ',').next().and_then(|x| x.parse().ok())
+        } else {
+            (0..SLOTS).find(|s| truth.owner[*s] == Some(*src) && truth.mig[*s].is_none())
+        };
+        let slot = match slot {
+            Some(s) => s,
+            None => continue,
+        };
+        let h = match proxies.get(&(*src / 2)) {
+            Some(h) => h.clone(),
+            None => continue,
+        };
+        let t = std::time::Instant::now();
+        let mut k = 0u64;
+        loop {
+            let (e0, h0) = (ENQUEUED.load(Ordering::SeqCst), HANDED_OFF.load(Ordering::SeqCst));
+            let key = format!("sent{}x{}{{{}}}", t.elapsed().as_nanos(), k, slot_tags()[slot]).into_bytes();
+            k += 1;
+            let hh = h.clone();
+            OUTSTANDING.fetch_add(1, Ordering::SeqCst);
+            let counted = Arc::new(std::sync::atomic::AtomicBool::new(true));
+            let counted2 = counted.clone();
+            tokio::spawn(async move {
+                let _ = send_cmd(&hh, vec![b"GET".to_vec(), key]).await;
+                if counted2.swap(false, Ordering::SeqCst) {
+                    OUTSTANDING.fetch_sub(1, Ordering::SeqCst);
+                }
+            });
+            while ENQUEUED.load(Ordering::SeqCst) == e0 && HANDED_OFF.load(Ordering::SeqCst) == h0 && t.elapsed() < stuck_limit() {
+                tokio::time::sleep(Duration::from_millis(1)).await;
+            }
+            let was_parked = ENQUEUED.load(Ordering::SeqCst) != e0;
+            if !was_parked && want_blocked && counted.swap(false, Ordering::SeqCst) {
+                // handed to the node, where it may wait behind the plug like the plug itself: executing, not in flight inside the proxy
+                OUTSTANDING.fetch_sub(1, Ordering::SeqCst);
+            }
+            if was_parked == want_blocked {
+                break;
+            }
+            if t.elapsed() >= stuck_limit() {
+                note.push_str(&format!("barrier_of_node_{}_not_{};", src, if want_blocked { "raised" } else { "lowered" }));
+                break;
+            }
+            tokio::time::sleep(Duration::from_millis(2)).await;
+        }
+    }
+}
+
 // ---------- the case ----------
 pub fn run_case(rt: &tokio::runtime::Runtime, line: &str) -> String {
     let t_case = std::time::Instant::now();
@@ -628,65 +694,10 @@ pub fn run_case(rt: &tokio::runtime::Runtime, line: &str) -> String {
             net.gate_precheck.store(GATE_PASS, Ordering::SeqCst);
         }
         let want = expected_states(&pin);
-        let mut ph = wait_states(&pinned, want).await;
+        let mut ph = wait_states(&pinned, want, stuck_limit()).await;
         // The barrier flag is not part of the task state: PRE_BLOCKING is set just before start_blocking, SCANNING just before the
         // BlockingHandle is dropped.  Establish it with a sentinel command per source node and the hook counters.
-        if pin == "pb" || pin == "scan" {
-            let want_blocked = pin == "pb";
-            let mut done: Vec<u64> = vec![];
-            for ((ranges, src, _), _) in ph.clone().iter() {
-                if done.contains(src) {
-                    continue;
-                }
-                done.push(*src);
-                let slot: Option<usize> = if want_blocked {
-                    ranges.split(|c| c == '-' || c == ',').next().and_then(|x| x.parse().ok())
-                } else {
-                    (0..SLOTS).find(|s| truth.owner[*s] == Some(*src) && truth.mig[*s].is_none())
-                };
-                let slot = match slot {
-                    Some(s) => s,
-                    None => continue,
-                };
-                let h = match pinned.get(&(*src / 2)) {
-                    Some(h) => h.clone(),
-                    None => continue,
-                };
-                let t = std::time::Instant::now();
-                let mut k = 0u64;
-                loop {
-                    let (e0, h0) = (ENQUEUED.load(Ordering::SeqCst), HANDED_OFF.load(Ordering::SeqCst));
-                    let key = format!("sent{}{{{}}}", k, slot_tags()[slot]).into_bytes();
-                    k += 1;
-                    let hh = h.clone();
-                    OUTSTANDING.fetch_add(1, Ordering::SeqCst);
-                    let counted = Arc::new(std::sync::atomic::AtomicBool::new(true));
-                    let counted2 = counted.clone();
-                    tokio::spawn(async move {
-                        let _ = send_cmd(&hh, vec![b"GET".to_vec(), key]).await;
-                        if counted2.swap(false, Ordering::SeqCst) {
-                            OUTSTANDING.fetch_sub(1, Ordering::SeqCst);
-                        }
-                    });
-                    while ENQUEUED.load(Ordering::SeqCst) == e0 && HANDED_OFF.load(Ordering::SeqCst) == h0 && t.elapsed() < stuck_limit() {
-                        tokio::time::sleep(Duration::from_millis(1)).await;
-                    }
-                    let was_parked = ENQUEUED.load(Ordering::SeqCst) != e0;
-                    if !was_parked && want_blocked && counted.swap(false, Ordering::SeqCst) {
-                        // handed to the node, where it waits behind the plug like the plug itself: executing, not in flight inside the proxy
-                        OUTSTANDING.fetch_sub(1, Ordering::SeqCst);
-                    }
-                    if was_parked == want_blocked {
-                        break;
-                    }
-                    if t.elapsed() >= stuck_limit() {
-                        note.push_str(&format!("barrier_of_node_{}_not_{};", src, if want_blocked { "raised" } else { "lowered" }));
-                        break;
-                    }
-                    tokio::time::sleep(Duration::from_millis(2)).await;
-                }
-            }
-        }
+        establish_barriers(&pinned, &ph, &truth, &mut note).await;
         if store_at_sync.is_some() {
             // the coordinator's next round: the views of the final state on top of the installed ones
             for p in pids.iter() {
@@ -695,7 +706,10 @@ pub fn run_case(rt: &tokio::runtime::Runtime, line: &str) -> String {
                     note.push_str(&format!("send_meta_failed:{}:{:?};", p, e));
                 }
             }
-            ph = wait_states(&proxies, want).await;
+            // tasks (re)created by this delivery start under the already opened gates and need not reach the pinned pair: the states
+            // that are read back are what the model is given, and a later change is reported (phases_changed_during_probing)
+            ph = wait_states(&proxies, want, Duration::from_secs(5)).await;
+            establish_barriers(&proxies, &ph, &truth, &mut note).await;
             // a fake node answers in order: a plug that still holds the connection of a node that is no longer the source of any
             // running migration (its barrier is gone) would keep every later command of that node waiting forever
             let still: Vec<u64> = ph.keys().map(|(_, src, _)| *src).collect();
